@@ -71,6 +71,7 @@ type Sched struct {
 	aborted bool
 	race    *raceState
 	keep    []any
+	pinned  map[string]any
 }
 
 var active *Sched
